@@ -10,7 +10,14 @@ import xml.dom
 
 import cssutils
 from cssutils.helper import normalize
-from cssutils.prodparser import Choice, PreDef, Prod, ProdParser, Sequence
+from cssutils.prodparser import (
+    Choice,
+    PreDef,
+    Prod,
+    ProdParser,
+    Sequence,
+    savedTokens,
+)
 
 
 class MediaQuery(cssutils.util._NewBase):  # cssutils.util.Base):
@@ -163,6 +170,10 @@ class MediaQuery(cssutils.util._NewBase):  # cssutils.util.Base):
 
         # parse
         ok, seq, store, unused = ProdParser().parse(mediaText, 'MediaQuery', prods)
+        if ok and not self._partof and savedTokens:
+            # stand-alone query: a handed back token is not part of a list
+            ok = False
+            self._log.error('MediaQuery: Unexpected token.', savedTokens.pop())
         self._wellformed = ok
         if ok:
             try:
